@@ -183,10 +183,10 @@ func (o *Once) Do(f func()) {
 // Int32 replaces atomic.Int32 (every access is a scheduling point).
 type Int32 struct{ v atomic.Int32 }
 
-func (a *Int32) Load() int32            { Yield(-1); return a.v.Load() }
-func (a *Int32) Store(x int32)          { Yield(-1); a.v.Store(x) }
-func (a *Int32) Add(d int32) int32      { Yield(-1); return a.v.Add(d) }
-func (a *Int32) Swap(x int32) int32     { Yield(-1); return a.v.Swap(x) }
+func (a *Int32) Load() int32        { Yield(-1); return a.v.Load() }
+func (a *Int32) Store(x int32)      { Yield(-1); a.v.Store(x) }
+func (a *Int32) Add(d int32) int32  { Yield(-1); return a.v.Add(d) }
+func (a *Int32) Swap(x int32) int32 { Yield(-1); return a.v.Swap(x) }
 func (a *Int32) CompareAndSwap(o, n int32) bool {
 	Yield(-1)
 	return a.v.CompareAndSwap(o, n)
@@ -203,16 +203,16 @@ func (a *Uint32) Swap(x uint32) uint32 { Yield(-1); return a.v.Swap(x) }
 // Int64 / Bool for completeness.
 type Int64 struct{ v atomic.Int64 }
 
-func (a *Int64) Load() int64         { Yield(-1); return a.v.Load() }
-func (a *Int64) Store(x int64)       { Yield(-1); a.v.Store(x) }
-func (a *Int64) Add(d int64) int64   { Yield(-1); return a.v.Add(d) }
-func (a *Int64) Swap(x int64) int64  { Yield(-1); return a.v.Swap(x) }
+func (a *Int64) Load() int64        { Yield(-1); return a.v.Load() }
+func (a *Int64) Store(x int64)      { Yield(-1); a.v.Store(x) }
+func (a *Int64) Add(d int64) int64  { Yield(-1); return a.v.Add(d) }
+func (a *Int64) Swap(x int64) int64 { Yield(-1); return a.v.Swap(x) }
 
 type Bool struct{ v atomic.Bool }
 
-func (a *Bool) Load() bool        { Yield(-1); return a.v.Load() }
-func (a *Bool) Store(x bool)      { Yield(-1); a.v.Store(x) }
-func (a *Bool) Swap(x bool) bool  { Yield(-1); return a.v.Swap(x) }
+func (a *Bool) Load() bool       { Yield(-1); return a.v.Load() }
+func (a *Bool) Store(x bool)     { Yield(-1); a.v.Store(x) }
+func (a *Bool) Swap(x bool) bool { Yield(-1); return a.v.Swap(x) }
 
 // Cond replaces sync.Cond.
 type Cond struct {
@@ -258,10 +258,10 @@ func (c *Cond) Broadcast() {
 // Uint64 / Pointer / Value
 type Uint64 struct{ v atomic.Uint64 }
 
-func (a *Uint64) Load() uint64          { Yield(-1); return a.v.Load() }
-func (a *Uint64) Store(x uint64)        { Yield(-1); a.v.Store(x) }
-func (a *Uint64) Add(d uint64) uint64   { Yield(-1); return a.v.Add(d) }
-func (a *Uint64) Swap(x uint64) uint64  { Yield(-1); return a.v.Swap(x) }
+func (a *Uint64) Load() uint64         { Yield(-1); return a.v.Load() }
+func (a *Uint64) Store(x uint64)       { Yield(-1); a.v.Store(x) }
+func (a *Uint64) Add(d uint64) uint64  { Yield(-1); return a.v.Add(d) }
+func (a *Uint64) Swap(x uint64) uint64 { Yield(-1); return a.v.Swap(x) }
 func (a *Uint64) CompareAndSwap(o, n uint64) bool {
 	Yield(-1)
 	return a.v.CompareAndSwap(o, n)
@@ -276,9 +276,9 @@ func (a *Bool) CompareAndSwap(o, n bool) bool { Yield(-1); return a.v.CompareAnd
 
 type Value struct{ v atomic.Value }
 
-func (a *Value) Load() any       { Yield(-1); return a.v.Load() }
-func (a *Value) Store(x any)     { Yield(-1); a.v.Store(x) }
-func (a *Value) Swap(x any) any  { Yield(-1); return a.v.Swap(x) }
+func (a *Value) Load() any      { Yield(-1); return a.v.Load() }
+func (a *Value) Store(x any)    { Yield(-1); a.v.Store(x) }
+func (a *Value) Swap(x any) any { Yield(-1); return a.v.Swap(x) }
 func (a *Value) CompareAndSwap(o, n any) bool {
 	Yield(-1)
 	return a.v.CompareAndSwap(o, n)
@@ -286,9 +286,9 @@ func (a *Value) CompareAndSwap(o, n any) bool {
 
 type Pointer[T any] struct{ v atomic.Pointer[T] }
 
-func (a *Pointer[T]) Load() *T       { Yield(-1); return a.v.Load() }
-func (a *Pointer[T]) Store(x *T)     { Yield(-1); a.v.Store(x) }
-func (a *Pointer[T]) Swap(x *T) *T   { Yield(-1); return a.v.Swap(x) }
+func (a *Pointer[T]) Load() *T     { Yield(-1); return a.v.Load() }
+func (a *Pointer[T]) Store(x *T)   { Yield(-1); a.v.Store(x) }
+func (a *Pointer[T]) Swap(x *T) *T { Yield(-1); return a.v.Swap(x) }
 func (a *Pointer[T]) CompareAndSwap(o, n *T) bool {
 	Yield(-1)
 	return a.v.CompareAndSwap(o, n)
